@@ -73,6 +73,9 @@ ReplyOK(e) == LET x == e.expect
 SpacingOK(e) == LET x == e.expect per == (x.rate.winMs * 1000 + x.rate.winNs \div 1000) \div x.rate.n IN
    \A i \in 1..Len(e.probes) : \A j \in (i + 1)..Len(e.probes) :
         e.probes[j].t - e.probes[i].t >= (j - i - 10) * per - (60000 + ((j - i) * per) \div 10)
+\* C15 for application scans: the moments the loopback servers accepted the connections of the probes
+ConnSpacingOK(e) == LET x == e.expect per == (x.rate.winMs * 1000 + x.rate.winNs \div 1000) \div x.rate.n t == e.connTimes IN
+   \A i \in 1..Len(t) : \A j \in (i + 1)..Len(t) : t[j] - t[i] >= (j - i - 10) * per - (60000 + ((j - i) * per) \div 10)
 \* application scans on loopback: connections seen by the servers = Denote(target), each once
 ConnsOK(e) == LET x == e.expect IN
    /\ {<<e.conns[i].ip, e.conns[i].port>> : i \in 1..Len(e.conns)} = Denote(x.target)
@@ -123,7 +126,8 @@ RunOK(e) == LET x == e.expect IN
         CASE x.kind = "refuse" -> (F("refuse") => e.exit # 0 /\ Len(e.probes) = 0 /\ Len(e.conns) = 0 /\ Len(e.records) = 0)    \* C02: refused before anything is sent
           [] x.kind \in {"sigint", "packetsigint"} -> (F("clean") => /\ (e.sigintT > 0 => e.exitT <= e.sigintT + ExitBound)                              \* C12
                                                   /\ \A i \in 1..Len(e.probes) : DstOf(x, e.probes[i]) \in Denote(x.target))
-          [] x.kind = "app" -> (F("coverage") => e.exit = 0 /\ ConnsOK(e))
+          [] x.kind = "app" -> /\ (F("coverage") => e.exit = 0 /\ ConnsOK(e))
+                               /\ (F("rate") /\ "rate" \in DOMAIN x /\ e.stallUs <= 20000 => ConnSpacingOK(e))
           [] x.kind = "apphttp" -> (F("coverage") => e.exit = 0 /\ ConnsHttpOK(e))
           [] x.kind = "apptime" -> (F("time") => TimeOK(e))
           [] x.kind = "live" -> (F("live") => LiveOK(e))
